@@ -389,7 +389,21 @@ class ExprMixin:
             out = s.ghost.get('$out')
             if out is None:
                 raise Unsupported('yield without a declared output sequence')
-            s.ghost['$out'] = VSeq(Concat(out.z, Unit(elem_z(o[2], out.a['elem']))), out.a['elem'])
+            item = o[2]
+            if item.ty == 'opt':
+                self.oblige('%s@L%d#yielded-value-is-not-None' % (self.cur.key, n.lineno), s,
+                            Not(item.a['isnone']), 'A')
+                item = item.a['some']
+            xz = elem_z(item, out.a['elem'])
+            new = Concat(out.z, Unit(xz))
+            s.ghost['$out'] = VSeq(new, out.a['elem'])
+            # sequence facts about the extension (definitional; supplied so that the solver need not derive them)
+            from .spec import QBool
+            n0 = Length(out.z)
+            s.fact(Length(new) == n0 + 1)
+            s.fact(new[n0] == xz)
+            self.touch(s, n0)
+            self.assume_clause(s, [QBool(BoolVal(True), IntVal(0), n0, lambda k, new=new, old=out.z: new[k] == old[k])])
             for h in getattr(self.cur, 'yield_hooks', []):
                 h(self, s, o[2])
             outs.append(('val', s, VNone))
